@@ -102,6 +102,10 @@ func (rg *rootGeneratorSimple) generateIter() func(yield func(*Node, error) bool
 			}
 		}
 
+		if root == nil && rg.scanner.Err() == nil {
+			// empty or blank-only input: there is no root to return
+			return
+		}
 		yield(root, rg.scanner.Err()) // 最後のブロックのrootを返却
 	}
 }
